@@ -8,7 +8,7 @@
    * an edit "touches" the nodes it removes / inserts / moves (`touched`), not the node it is relative to. *)
 From Coq Require Import List Arith ZArith Bool Lia.
 From IRV Require Import Base.Exn C11.Model C11.Proofs C11.Proofs2 C11.Proofs3 C11.Proofs4 C11.Proofs5 C11.Proofs6
-  C11.ProofsR C11.ProofsR2.
+  C11.ProofsR C11.ProofsR2 C11.ProofsR3.
 Import ListNotations.
 
 (* ---- well-formedness: initial state, preserved by every edit (successes and rejections alike) *)
@@ -276,10 +276,92 @@ Example C11_rec_example :
   exists gs' , rsrun ex_subs true
      [RSStep; RSStep; RSEdit 1 (Remove 11); RSEdit 1 (Append 13); RSEdit 0 (Remove 1); RSStep; RSStep; RSStep; RSStep; RSStep]
      ex_forest [(0, Fresh, [])] = Some (gs', [], [1; 11; 12; 13; 21; 2]) /\
-  option_map (fun r => snd r) (rnext ex_subs true ex_forest (RFresh 0)) = Some [CEnter 0] /\
+  option_map (fun r => snd r) (rnext ex_subs None true ex_forest (RFresh 0)) = Some [CEnter 0] /\
   option_map (fun r => snd r) (rnext_stack ex_subs true ex_forest [(0, Parked 0, [1; 2])])
     = Some [CEnter 1; CEnter 1].
 Proof. eexists. vm_compute. repeat split. Qed.
+
+(* ==== the `recursive` predicate and the enter_graph / exit_graph callbacks (ProofsR3.v).
+   `rnext subs recp` is next() of RecursiveGraphIterator(recursive=recp, enter_graph=.., exit_graph=..): all the laws
+   above hold with `eff_subs subs recp` in place of `subs` (a node the predicate rejects has no subgraphs for this
+   traversal); the events of a call are its callback trace: CEnter g / CExit g / CRec x (= recursive(x) was called). *)
+
+(* next() never raises; the yielded node belongs to the graph of the frame on top; that frame will descend into
+   exactly the node's subgraphs if the predicate accepts the node and into none otherwise; StopIteration leaves the
+   exhausted iterator *)
+Theorem C11_rec_next_safe :
+  forall subs recp fwd gs rc, gwf gs -> rc_valid fwd gs rc ->
+    exists rc' y ev, rnext subs recp fwd gs rc = Some (rc', y, ev) /\ rc_valid fwd gs rc' /\
+      match y with
+      | Some x => exists g c rest, rc' = RRun (Some x) ((g, c, eff_subs subs recp x) :: rest) /\ In x (to_list (gs g))
+      | None => rc' = RRun None []
+      end.
+Proof. exact rnext_ok. Qed.
+Print Assumptions C11_rec_next_safe.
+
+Theorem C11_rec_predicate_rule :
+  forall subs p x, (p x = false -> eff_subs subs (Some p) x = []) /\ (p x = true -> eff_subs subs (Some p) x = subs x)
+                   /\ eff_subs subs None x = subs x.
+Proof. intros. split; [apply eff_subs_false|split; [apply eff_subs_true|reflexivity]]. Qed.
+Print Assumptions C11_rec_predicate_rule.
+
+(* the predicate is called exactly once per yielded node — when the iterator resumes after that node — and at no
+   other time (never at all when no predicate was given) *)
+Theorem C11_rec_predicate_asked_once :
+  forall subs recp fwd gs rc rc' y ev,
+    rnext subs recp fwd gs rc = Some (rc', y, ev) ->
+    filter is_rec ev = match rc, recp with RRun (Some x) _, Some _ => [CRec x] | _, _ => [] end.
+Proof. exact rnext_rec_events. Qed.
+Print Assumptions C11_rec_predicate_asked_once.
+
+(* callbacks, one call: starting from the graphs the suspended traversal holds open (innermost first), the
+   enter/exit events of the call are a legal stack history (every exit closes the innermost open graph) ending in
+   the graphs the new state holds open *)
+Theorem C11_rec_callbacks_step :
+  forall subs recp fwd gs rc rc' y ev,
+    rnext subs recp fwd gs rc = Some (rc', y, ev) -> cb_run (open_rc rc) ev = Some (open_rc rc').
+Proof. exact rnext_cb. Qed.
+Print Assumptions C11_rec_callbacks_step.
+
+(* callbacks, every history: for ANY interleaving of next() calls with edits of any graph (no hypothesis on the
+   forest at all) the whole callback trace is properly nested ... *)
+Theorem C11_rec_callbacks_nested :
+  forall subs recp fwd evs gs rc gs' rc' ys tr,
+    rtrun subs recp fwd evs gs rc = Some (gs', rc', ys, tr) -> cb_run (open_rc rc) tr = Some (open_rc rc').
+Proof. intros subs recp fwd evs. exact (rtrun_cb subs recp fwd evs). Qed.
+Print Assumptions C11_rec_callbacks_nested.
+
+(* ... and balanced once the traversal is exhausted: every enter_graph has its exit_graph, innermost first *)
+Theorem C11_rec_callbacks_balanced :
+  forall subs recp fwd evs gs g0 gs' last ys tr,
+    rtrun subs recp fwd evs gs (RFresh g0) = Some (gs', RRun last [], ys, tr) -> cb_run [] tr = Some [].
+Proof. intros subs recp fwd evs gs g0 gs' last ys tr H. exact (rtrun_cb subs recp fwd evs gs (RFresh g0) gs' _ ys tr H). Qed.
+Print Assumptions C11_rec_callbacks_balanced.
+
+(* a prefix of a legal callback history is legal (no call ever closes a graph that is not the innermost open one) *)
+Theorem C11_rec_callbacks_prefix :
+  forall S a b S', cb_run S (a ++ b) = Some S' -> exists S1, cb_run S a = Some S1.
+Proof. exact cb_run_prefix. Qed.
+Print Assumptions C11_rec_callbacks_prefix.
+
+(* no history makes the iterator raise or get stuck *)
+Theorem C11_rec_history_never_raises :
+  forall subs recp fwd evs gs rc, gwf gs -> rc_valid fwd gs rc -> rtrun subs recp fwd evs gs rc <> None.
+Proof. intros subs recp fwd evs. exact (rtrun_total subs recp fwd evs). Qed.
+Print Assumptions C11_rec_history_never_raises.
+
+(* predicate rejecting node 1 (which carries graphs 1 and 2): only graph 0 is walked, its callbacks are balanced,
+   the predicate is asked once for each of 1 and 2; with the predicate accepting everything the subgraphs are
+   entered and left twice each, properly nested, also when the enclosing node is removed mid-way *)
+Example C11_rec_predicate_example :
+  (exists gs' rc', rtrun ex_subs (Some (fun x => negb (x =? 1))) true [RSStep; RSStep; RSStep] ex_forest (RFresh 0)
+     = Some (gs', rc', [1; 2], [CEnter 0; CRec 1; CRec 2; CExit 0])) /\
+  (exists gs' rc' tr, rtrun ex_subs (Some (fun _ => true)) true
+       [RSStep; RSStep; RSEdit 0 (Remove 1); RSStep; RSStep; RSStep; RSStep] ex_forest (RFresh 0)
+     = Some (gs', rc', [1; 11; 12; 21; 2], tr) /\ cb_run [] tr = Some [] /\
+       tr = [CEnter 0; CRec 1; CEnter 1; CEnter 1; CRec 11; CRec 12; CExit 1; CExit 1; CEnter 2; CEnter 2;
+             CRec 21; CExit 2; CExit 2; CRec 2; CExit 0]).
+Proof. split; [eexists; eexists; vm_compute; reflexivity|]. eexists. eexists. eexists. vm_compute. repeat split. Qed.
 
 (* ---- non-vacuity: a reachable state with tombstones, a cursor parked on an erased box whose chain runs
         through a second erased box; the hypotheses of the theorems hold and the laws are observable *)
